@@ -6,7 +6,7 @@ from . import common
 SPEC_THEOREM = 'Props/C13: distinct keeps first occurrences and is idempotent; intersection/except partition the first list; overlap iff intersection non-empty'
 TRUSTED = ['Coq 8.16.1 kernel', 'translator', 'extraction + OCaml driver', 'Rust harness', 'model SetOps.v (identity = identical entry word and payload)']
 ASSUMPTIONS = ['inputs are canonical encodings (identity of elements = identity of encodings)']
-RULE = 'pairs of arrays with >= 50% duplicates, equal/differing nested containers, scalar and object operands, empty arrays; non-trivial = non-empty result'
+RULE = 'pairs of arrays with >= 50% duplicates, equal/differing nested containers, scalar and object operands, empty arrays; binary/binary and, for finite documents, text/binary, binary/text and text/text arguments; non-trivial = non-empty result'
 
 
 def ident(v):
@@ -34,6 +34,15 @@ def generate(ctx):
         ids = [ctx.add('array_distinct %s' % ea).id, ctx.add('array_intersection %s %s' % (ea, eb)).id,
                ctx.add('array_except %s %s' % (ea, eb)).id, ctx.add('array_overlap %s %s' % (ea, eb)).id]
         ctx.trials.append((a, b, ids))
+        # the same functions with one or both arguments given as JSON text (the elements are then typed as the text parser types them)
+        if r.random() < 0.3 and gen.is_finite(a) and gen.is_finite(b):
+            ta, tb = gen.hexarg(gen.json_text(a, r)), gen.hexarg(gen.json_text(b, r))
+            if not ta.startswith('20') and not tb.startswith('20'):
+                fa, fb = gen.text_form(a), gen.text_form(b)
+                for x, y, p, q in ((ta, eb, fa, b), (ea, tb, a, fb), (ta, tb, fa, fb)):
+                    ids = [ctx.add('array_distinct %s' % x).id, ctx.add('array_intersection %s %s' % (x, y)).id,
+                           ctx.add('array_except %s %s' % (x, y)).id, ctx.add('array_overlap %s %s' % (x, y)).id]
+                    ctx.trials.append((p, q, ids))
 
 
 def judge(ctx):
